@@ -114,8 +114,10 @@ Definition query (h : heap) (v : val) : val :=
       | Some s, Some o => VL [ dump_view (compare_pos h s o);
                                (* the claim is about nodes of one tree; for unconnected nodes the library answers from
                                   whatever parentNode links removed nodes and spent fragments still carry *)
-                               if Nat.eqb (root_of h s) (root_of h o) then VL [VI 0; VI (spec_compare h s o)] else NOCLAIM;
-                               ofB (raw_cyclic (S (length h)) h s || raw_cyclic (S (length h)) h o) ]
+                               if Nat.eqb (root_of h s) (root_of h o) then VL [VI 0; VI (spec_compare_dewey h s o)] else NOCLAIM;
+                               ofB (raw_cyclic (S (length h)) h s || raw_cyclic (S (length h)) h o);
+                               (* the two formulations of document order (position paths / preorder index) agree *)
+                               ofB (negb (Nat.eqb (root_of h s) (root_of h o)) || Z.eqb (spec_compare_dewey h s o) (spec_compare h s o)) ]
       | _, _ => v_bad_input end
   | _ => v_bad_input
   end.
